@@ -691,3 +691,37 @@ Lemma linebp_globals :
   /\ map snd (ses_heads (d_session replay_step w_glob 10 w_glob_linereq [])) = [Some 0]
   /\ ses_status (d_session replay_step w_glob 10 w_glob_linereq []) = Returned.
 Proof. vm_compute. auto. Qed.
+
+(* ------------------------------------------------------------------ *)
+(** * Two step functions that agree *)
+
+Lemma p_run_ext St (m1 m2 : St -> option (St * act)) :
+  (forall ps, m1 ps = m2 ps) ->
+  forall fuel t head ps log, p_run m1 fuel t head ps log = p_run m2 fuel t head ps log.
+Proof.
+  intros H. induction fuel as [|k IH]; intros t head ps log; [reflexivity|].
+  cbn [p_run]. rewrite H. destruct (m2 ps) as [[ps1 a]|]; [|reflexivity].
+  destruct a as [n | [[p n]|] | ]; try reflexivity.
+  - rewrite IH. destruct (p_run m2 k (Some n) true ps1 (if head then t :: log else log)) as [[ps2 log2] s].
+    destruct s; auto.
+  - apply IH.
+Qed.
+
+(** The behaviour clause for the pair (plain closures, debugged closures). *)
+Lemma same_behaviour_variants St (plain debugged : St -> option (St * act)) g fuel ps rq :
+  variants_agree plain debugged ->
+  no_terminate rq ->
+  ses_state (d_session debugged g fuel ps rq) = pl_state (p_session plain fuel ps)
+  /\ ses_status (d_session debugged g fuel ps rq) = pl_status (p_session plain fuel ps)
+  /\ map snd (ses_heads (d_session debugged g fuel ps rq)) = pl_visited (p_session plain fuel ps).
+Proof.
+  intros Hv Hq. destruct (same_behaviour St debugged g fuel ps rq Hq) as (A & B & C).
+  unfold p_session in *. rewrite (p_run_ext St debugged plain Hv) in A, B, C. auto.
+Qed.
+
+Lemma variants_inhabited : variants_agree replay_step replay_step.
+Proof. intros ps. reflexivity. Qed.
+
+Lemma linebp_hostpanic :
+  pregen (fun n => negb (Nat.eqb n 1)) [0; 1; 2] = None /\ pregen (fun _ => true) [0; 1; 2] = Some tt.
+Proof. vm_compute. auto. Qed.
